@@ -202,11 +202,7 @@ where
         self.prompt = prompt;
         self.clear_line(false)?;
 
-        if let Some(editor) = self.editor.as_mut() {
-            self.writer.flush_str(editor.text())?;
-        }
-
-        Ok(())
+        self.write_input()
     }
 
     pub fn write(
@@ -224,11 +220,20 @@ where
             self.writer.write_str(codes::CRLF)?;
         }
         self.writer.write_str(self.prompt)?;
-        if let Some(editor) = self.editor.as_mut() {
-            self.writer.flush_str(editor.text())?;
-        }
 
-        Ok(())
+        self.write_input()
+    }
+
+    /// Writes current input after prompt and places
+    /// terminal cursor where editor cursor is
+    fn write_input(&mut self) -> Result<(), E> {
+        if let Some(editor) = self.editor.as_ref() {
+            self.writer.write_str(editor.text())?;
+            for _ in editor.cursor()..editor.len() {
+                self.writer.write_bytes(codes::CURSOR_BACKWARD)?;
+            }
+        }
+        self.writer.flush()
     }
 
     fn clear_line(&mut self, clear_prompt: bool) -> Result<(), E> {
